@@ -135,7 +135,18 @@ pub fn gen(app: App, flavor: Flavor, over_tcp: bool, rng: &mut Rng) -> Vec<u8> {
         }
         (App::Rpc, Flavor::ResponseTyped) => {
             let b = rpc::gen_reply_msg(rng);
-            if over_tcp {
+            if over_tcp && b.len() > 8 && rng.chance(1, 3) {
+                // the same reply as a record of two or three fragments
+                let c1 = rng.range(1, b.len() as u64 - 1) as usize;
+                let mut v = (c1 as u32).to_be_bytes().to_vec();
+                v.extend_from_slice(&b[..c1]);
+                if rng.chance(1, 3) {
+                    v.extend_from_slice(&[0, 0, 0, 0]);
+                }
+                v.extend_from_slice(&(0x8000_0000u32 | (b.len() - c1) as u32).to_be_bytes());
+                v.extend_from_slice(&b[c1..]);
+                v
+            } else if over_tcp {
                 let mut v = (0x8000_0000u32 | b.len() as u32).to_be_bytes().to_vec();
                 v.extend_from_slice(&b);
                 v
